@@ -82,6 +82,11 @@ def judge_second_backup(d, impl, crc, ops, tr, states):
         return "a second iwkv_online_backup issued while one is running returned %s instead of IWKV_ERROR_BACKUP_IN_PROGRESS" % rc
     if not same:
         return "the refused second backup touched its target file (size now %d)" % size
+    return judge_third_backup(d, impl, crc, ops, tr, states)
+
+
+def judge_third_backup(d, impl, crc, ops, tr, states):
+    iy = ops.index("Y")
     oy = tr["ops"].get(iy, {})
     if oy.get("rc") != "0":
         return "a backup issued after the first one returned fails with %s" % oy.get("rc")
@@ -214,6 +219,61 @@ def one(run, impl, model, wd, name, crc, ops, ib):
     return res, True, "", ""
 
 
+def gen_failing_backup(rng):
+    """F<k>: the k-th write to the backup target fails (RLIMIT_FSIZE lowered to the target's size at that moment):
+    main-file chunks, the log-copy loops, the two trailer writes.  Afterwards: more work, sync, another backup."""
+    ops = ["n1"] + [rnd_op(rng, False) for _ in range(rng.range(3, 12))]
+    if rng.chance(1, 3):
+        ops.append("p1:%s:%d:%d" % (W.khex(rng.choice(KEYS)), 20000, rng.below(250)))    # several main-file chunks
+    ib = len(ops)
+    ops.append("F%d" % rng.range(1, 7))
+    ops += [rnd_op(rng, False) for _ in range(rng.range(1, 3))] + ["s", "Y", "s"]
+    return ops, ib
+
+
+def one_fail(run, impl, model, wd, name, crc, ops, ib):
+    """a backup whose target cannot be written: it must return an error in time, release everything, leave the
+    live store alone"""
+    d = os.path.join(wd, name)
+    shutil.rmtree(d, ignore_errors=True)
+    os.makedirs(d)
+    rc, out, err = vlib.run_lines(impl, "run %s %d 1 -1 2 %s\n" % (d, crc, " ".join(ops)), timeout=60)
+    tr = W.parse_trace(os.path.join(d, "trace"))
+    line = out[0] if out else "<none>"
+    res = {"ops": ops, "crc": crc, "run": line}
+    states = ref_states(ops)
+    tl = open(os.path.join(d, "trace")).read().split("\n") if os.path.exists(os.path.join(d, "trace")) else []
+    failed = [l for l in tl if l.startswith("G fail")]
+    res["failed_write"] = failed[0] if failed else None
+    if line != "run exit=0":
+        infl = [i for i in sorted(tr["ops"]) if tr["ops"][i].get("rc") is None]
+        if failed and infl and infl[0] == ib:
+            return res, False, ("iwkv_online_backup did not return after a failed write to its target (%s): %s - the call hangs "
+                                "holding the store's locks" % (failed[0], line)), "failed-backup"
+        return res, False, "the process died: %s" % line, "failed-backup"
+    ob = tr["ops"].get(ib, {})
+    if failed and ob.get("rc") == "0":
+        return res, False, "a write to the backup target failed (%s) but iwkv_online_backup reported success" % failed[0], "failed-backup"
+    if not failed and ob.get("rc") != "0":
+        return res, False, "iwkv_online_backup failed with %s although no fault was injected" % ob.get("rc"), "failed-backup"
+    for i in range(ib + 1, len(ops)):
+        o = tr["ops"].get(i, {})
+        exp = "0"
+        if ops[i][0] == "d":
+            continue
+        if o.get("rc") != exp:
+            return res, False, "after a failed backup operation %d (%s) returns %s" % (i, ops[i][:30], o.get("rc")), "failed-backup"
+    why = judge_third_backup(d, impl, crc, ops, tr, states)
+    if why:
+        return res, False, "after a failed backup: " + why, "failed-backup"
+    rci, outi, erri = vlib.run_lines(impl, "rec %s %d -1\n" % (d, crc))
+    fl = W.fields((outi + ["<none>"])[0])
+    gotl, probsl = W.canon_dump(fl.get("dump", ""))
+    if fl.get("exit") != "0" or fl.get("rc") != "0" or probsl or gotl != states[len(ops)]:
+        return res, False, "the live store is not in the state after the whole history after a failed backup: %s" % (outi[:1],), "failed-backup"
+    return res, True, "", ""
+
+
 def check(run):
     proofs_ok = run.proofs()
     mult = 1 if proofs_ok else 10
@@ -242,10 +302,24 @@ def check(run):
             at = [-1, 0, 1][q % 3]
             ops, ib = gen_second_backup(run.rng, at)
             jobs.append((2000000 + q, crc, ops, ib, False, at, 3))
+        for q in range((14 if run.tier == "quick" else 400) * mult):
+            ops, ib = gen_failing_backup(run.rng)
+            jobs.append((3000000 + q, run.rng.choice([0, 1, 2]), ops, ib, False, 99, 0))
         from concurrent.futures import ThreadPoolExecutor
         with ThreadPoolExecutor(vlib.NCPU) as ex:
-            results = list(ex.map(lambda j: one(run, impl, model, wd, "h%d" % j[0], j[1], j[2], j[3]), jobs))
+            results = list(ex.map(lambda j: (one_fail if j[2][j[3]][0] == "F" else one)(run, impl, model, wd, "h%d" % j[0], j[1], j[2], j[3]), jobs))
         for (h, crc, ops, ib, growth, at, ninj), (res, ok, why, cl) in zip(jobs, results):
+            if ops[ib][0] == "F":
+                run.dist("failing_backup_%s" % ("fault_hit" if res.get("failed_write") else "no_fault_reached"))
+                run.case("%s|%d" % (" ".join(ops), crc), nontrivial=bool(res.get("failed_write")))
+                if not ok:
+                    run.cov.setdefault("violations_by_class", {})
+                    run.cov["violations_by_class"][cl] = run.cov["violations_by_class"].get(cl, 0) + 1
+                    if os.environ.get("VERIF_DEBUG"):
+                        print("DBG", h, cl, why[:160])
+                    if run.cov["violations_by_class"][cl] <= 2:
+                        run.violation({"ops": ops, "crc": crc, "class": cl, "failed_write": res.get("failed_write"), "run": res.get("run")}, why)
+                continue
             run.dist("writer_ops_inside_backup_%d" % res.get("injected", -1))
             run.dist("growth_inside" if growth else "no_growth_inside")
             if "X" in ops:
@@ -296,8 +370,8 @@ def replay(run, path):
         mode, impl = W.stable_harness(wd)
         model = vlib.build_model("wal")
         ops = r["ops"]
-        ib = [i for i, o in enumerate(ops) if o[0] in "bB"][0]
-        res, ok, why, cl = one(run, impl, model, wd, "r", r["crc"], ops, ib)
+        ib = [i for i, o in enumerate(ops) if o[0] in "bBF"][0]
+        res, ok, why, cl = (one_fail if ops[ib][0] == "F" else one)(run, impl, model, wd, "r", r["crc"], ops, ib)
         print("history:", " ".join(ops)); print("mode:", r["crc"], " run:", res.get("run"), " writer ops inside the call:", res.get("injected"))
         print("image:", (res.get("image") or "")[:600]); print("model:", res.get("model"))
         print("verdict:", "holds" if ok else "VIOLATED (%s): %s" % (cl, why)); print("recorded:", r.get("note"))
